@@ -25,8 +25,9 @@ type Case struct {
 
 func Spec() *mon.Spec {
 	return &mon.Spec{
-		ID:    "C11",
-		Level: "exploration",
+		ID:      "C11",
+		RuleAdd: "Later additions (rounds 4-17): hand-built shuffled requests with unreachable coils and a stray register field, extracted twice; the summary error of lenient extraction; value-form responses; extraction must accept the response of its own request.",
+		Level:   "exploration",
 		Rule: "lookup: FC1/FC2 responses (TCP/RTU) parsed by the library from reference-encoded frames, every payload length 1..250 x boundary/PRNG start; IsCoilSet / IsInputSet at every in-range address, both out-of-range sides, 0 and 65535: in range => bit (i mod 8) of payload[i div 8], out of range => error. " +
 			"pack: CoilsToBytes(pattern) == reference LSB-first packing for every length 1..1968. readback: pattern of n coils -> NewWriteMultipleCoilsRequest -> Bytes() -> simulated device (reference decoder) -> device memory must equal the pattern; NewReadCoilsRequest -> device reply -> library parse -> IsCoilSet(i) must equal device memory. extract: Builder.Coil fields -> ReadCoils/ReadDiscreteInputs requests -> device -> ExtractFields: each value == device memory. " +
 			"A payload whose lookups ALL equal the byte-reversed model is reported under kind coil-bytes-reversed, anything else under coil-wrong-bit. distinct key=(kind, fc, framing, payload length, start class).",
